@@ -48,6 +48,7 @@ impl Harness for Sup {
 			mon::Set::C09 => {
 				v.extend(scen::core_family(tier));
 				v.extend(scen::hook_family(tier));
+				v.extend(scen::errh_family(tier));
 				v.extend(scen::fault_family(tier).into_iter().filter(|(s, _)| !matches!(s.op_fault, Some((scen::Fault::Wait, _)))));
 				v.extend(scen::order_family(tier).into_iter().filter(|(s, b)| s.script.len() <= 4 && b.len() > 1));
 				v.extend(scen::waiter_family(tier).into_iter().filter(|(s, _)| s.drop_handle));
